@@ -43,7 +43,7 @@ class Directive:
 
 
 SUB = ("@ret", "@requires", "@ensures", "@closure", "@loop", "@prefix", "@insert_before", "@recommends",
-       "@decreases", "@nested", "@attr", "@closure_types", "@generics", "@replace", "@loop_begin", "@loop_end", "@adapter", "@inline_snapshot_update")
+       "@decreases", "@nested", "@attr", "@closure_types", "@generics", "@replace", "@loop_begin", "@loop_end", "@adapter", "@inline_snapshot_update", "@rename_param")
 
 
 def parse_spec(path: str):
@@ -165,6 +165,19 @@ class Source:
         return self.src.count("\n", 0, off) + 1
 
     def top(self, kind: str, name: str) -> rs.Item:
+        if "::" in name:
+            # item inside (nested) modules of this file: "v1::CONFIG"
+            parts = name.split("::")
+            items = self.items
+            for m in parts[:-1]:
+                mods = [i for i in items if i.kind == "mod" and i.name == m and not i.cfg_test]
+                if len(mods) != 1: raise AnchorLost(f"{self.rel}: mod {m}: found {len(mods)}")
+                bo = mods[0].kw
+                while self.st[bo].text != "{": bo += 1
+                items = rs.find_items(self.st, bo + 1, mods[0].st_hi)
+            c = [i for i in items if i.kind == kind and i.name == parts[-1] and not i.cfg_test]
+            if len(c) != 1: raise AnchorLost(f"{self.rel}: {kind} {name}: found {len(c)}")
+            return c[0]
         c = [i for i in self.items if i.kind == kind and i.name == name and not i.cfg_test]
         if len(c) != 1:
             raise AnchorLost(f"{self.rel}: {kind} {name}: found {len(c)}")
@@ -369,9 +382,10 @@ class Gen:
             if ens is None:
                 lits = [t.text for t in rs.sig(rs.tokenize(init)) if t.kind == "lit" and t.text.startswith('"')]
                 if not lits: raise AnchorLost(f"const {d.name}: no namespace literal")
-                ens = f"{d.name}.ns@ == {lits[0]}@"
+                short = d.name.split("::")[-1]
+                ens = f"{short}.ns@ == {lits[0]}@"
                 if m.group(1) in ("SnapshotMap", "SnapshotItem") and len(lits) >= 3:
-                    ens += f", {d.name}.cp@ == {lits[1]}@, {d.name}.cl@ == {lits[2]}@"
+                    ens += f", {short}.cp@ == {lits[1]}@, {short}.cl@ == {lits[2]}@"
             sp.insert(st[it.kw].start, ADD("E7", "exec "))
             sp.replace(st[j].start, st[j].end, REP("E7", "=", f"ensures {ens} {{"))
             sp.replace(st[it.st_hi].start, st[it.st_hi].end, REP("E7", ";", "}"))
@@ -398,7 +412,7 @@ class Gen:
         if "cw_serde" in outer: derives |= {"Clone", "PartialEq"}
         for m in re.finditer(r"derive\(([^)]*)\)", outer):
             derives |= set(x.strip() for x in m.group(1).split(","))
-        n = d.name
+        n = d.name.split("::")[-1]
         gen = []
         if d.opts.get("derive") is not None:
             derives = set(d.opts["derive"].split())
@@ -720,6 +734,15 @@ class Gen:
             if c.kind == "prefix":
                 txt = c.text
                 sp.insert(st[fp.body_open].end, ADD("E10", "\n" + txt))
+            if c.kind == "rename_param":
+                # E18: a parameter whose name collides with the function's own name (Verus limitation) is renamed consistently
+                old_n, new_n = c.args[0], c.args[1]
+                k = fp.params_open + 1
+                while k < fp.body_close:
+                    t = st[k]
+                    if t.kind == "ident" and t.text == old_n and st[k + 1].text != "(" and st[k - 1].text not in (".", "::"):
+                        sp.replace(t.start, t.end, REP("E18", old_n, new_n))
+                    k += 1
             if c.kind == "inline_snapshot_update":
                 # E9: `M.update(STORE, KEY, HEIGHT, |P| -> R { STMTS; Ok(E) })` is replaced by the body of cw-storage-plus 2.0.0
                 # SnapshotMap::update (may_load, action, save -- in that order) with the closure body in place, because the
